@@ -1,0 +1,43 @@
+// Package simhook holds the seams used by the deterministic simulator that lives outside this
+// repository (build tag "verif"). Without the tag every function below is an empty, inlinable
+// no-op, so the shipped behaviour is unchanged.
+package simhook
+
+// Lock identifiers of the lock model.
+const (
+	LockPatches = iota
+	LockMem
+	LockFuncSize
+	LockSymInit
+	NumLocks
+)
+
+// Yield / fault site identifiers.
+const (
+	SiteNone                   = iota
+	SitePatchReplaceRegistered // patch.replaceFunc: table updated, jump not generated yet
+	SitePatchReplaceDone       // patch.replaceFunc: about to return
+	SiteMemWriteRWX            // memory.WriteTo: pages are RWX, nothing copied yet
+	SiteMemWriteCopied         // memory.WriteTo: bytes copied, pages still RWX
+	SiteMemWriteDone           // memory.WriteTo: pages back to RX
+	SiteStubHolderLoaded       // stub.acquireFromHolder: offset loaded, not yet advanced
+	SiteMatcherLoaded          // BaseMatcher.Result: cursor loaded, not yet advanced
+	SiteIfaceStubMade          // iface.GenCallableMethod: stub generated
+	SiteIfaceApplied           // proxy.Interface: fake iface stored into the variable
+	SiteExeRead                // unexports2: one ReadAt on the executable
+	SiteMprotect               // fault site: one mprotect call (key = page, arg = prot)
+	SiteMmap                   // fault site: anonymous RWX mmap
+	SiteLockAcquired           // emitted by the lock model itself
+	SiteLockReleased           // emitted by the lock model itself
+	NumSites
+)
+
+// SiteNames maps site identifiers to readable names.
+var SiteNames = [NumSites]string{
+	"none", "patch.replace.registered", "patch.replace.done", "mem.write.rwx", "mem.write.copied",
+	"mem.write.done", "stub.holder.loaded", "matcher.result.loaded", "iface.stub.made", "iface.applied",
+	"exe.read", "mprotect", "mmap", "lock.acquired", "lock.released",
+}
+
+// LockNames maps lock identifiers to readable names.
+var LockNames = [NumLocks]string{"patches", "mem", "funcsize", "syminit"}
